@@ -337,6 +337,9 @@ pub fn iter_panics(site: usize, n: usize, st: &mut FStats) -> R {
         end(&what, id0, &tolerated, if site == 3 { 0 } else { 1 })?;
         st.cases
             .insert(hash64(&format!("iter|{}|{}|{}", site, n, k)));
+        if st.sample.len() < 14 && st.cases.len() % 7 == 1 {
+            st.sample.push(format!("{} -> {}", what, if fired { "panic propagated; survivors and tolerated half-built block checked" } else { "completed; contents checked" }));
+        }
         st.counts.bump("faults.iter.runs");
         if !fired {
             break;
@@ -399,6 +402,9 @@ pub fn iter_lies(site: usize, actual: usize, report: Vec<usize>, st: &mut FStats
     end(&what, id0, &tolerated, if site == 3 { 0 } else { 1 })?;
     st.cases
         .insert(hash64(&format!("lie|{}|{}|{:?}", site, actual, report)));
+    if st.sample.len() < 14 && st.cases.len() % 29 == 1 {
+        st.sample.push(format!("{} -> result valid or panic propagated", what));
+    }
     st.counts.bump("faults.lie.runs");
     Ok(())
 }
@@ -580,6 +586,9 @@ pub fn clone_panics(site: usize, co_kind: usize, st: &mut FStats) -> R {
         end(&what, id0, &[], 0)?;
         st.cases
             .insert(hash64(&format!("clone|{}|{}|{}", site, co_kind, k)));
+        if st.sample.len() < 14 && st.cases.len() % 5 == 1 {
+            st.sample.push(format!("{} -> {}", what, if panicked { "panic propagated; counts, co-owner view, uniqueness verdict checked" } else { "completed" }));
+        }
     }
     st.counts.add("faults.clone.runs", calls + 1);
     Ok(())
@@ -764,6 +773,9 @@ pub fn closure_panics(site: usize, shared: bool, st: &mut FStats) -> R {
     st.counts.bump("faults.closure.runs");
     st.cases
         .insert(hash64(&format!("closure|{}|{}", site, shared)));
+    if st.sample.len() < 14 && site % 3 == 0 {
+        st.sample.push(format!("{} -> panic propagated; counts and contents checked", what));
+    }
     Ok(())
 }
 
@@ -1022,6 +1034,9 @@ pub fn cmp_panics(h: usize, op: usize, st: &mut FStats) -> R {
         });
         end(&what, id0, &[], 0)?;
         st.cases.insert(hash64(&format!("cmp|{}|{}|{}", h, op, k)));
+        if st.sample.len() < 14 && st.cases.len() % 11 == 1 {
+            st.sample.push(format!("{} -> counts and contents of every handle checked", what));
+        }
         k += 1;
         if k > calls + 1 {
             break;
